@@ -4,8 +4,8 @@
    under a `_partial` twin (see DESIGN.md section 9). *)
 From Coq Require Import List String Bool Permutation.
 Import ListNotations.
-From DI Require Import Syntax Tokens Bounds Param Subs Superset Substitute Spec RustSem Group Search Gen Validate IMap Hygiene Dispatch Examples ExamplesGroup ExamplesF16.
-From DI.proofs Require Import Basics SupersetSound SupersetExact SupersetComplete SupersetWf SubstituteProofs SubstituteSpec BoundsProofs DispatchProofs GroupProofs SearchProofs SearchFlat GenProofs ParamProofs ParamAlpha RustSemProofs ValidateProofs IMapProofs HygieneProofs.
+From DI Require Import Syntax Tokens Bounds Param Subs Superset Substitute Spec RustSem Group Search Gen GenMain Validate IMap Hygiene Dispatch Examples ExamplesGroup ExamplesF16.
+From DI.proofs Require Import Basics SupersetSound SupersetExact SupersetComplete SupersetWf SubstituteProofs SubstituteSpec BoundsProofs DispatchProofs GroupProofs SearchProofs SearchFlat GenProofs GenMainProofs ParamProofs ParamAlpha RustSemProofs ValidateProofs IMapProofs HygieneProofs.
 
 (* ===================================================================================== *)
 (* C09 -- header generalisation is exact first-order matching                             *)
@@ -359,6 +359,21 @@ Theorem C15_unsized_exact : forall (Q V : Type) keyvals (members : list (member 
             exists m, In m members /\ m_applies Q V m q = true.
 Proof. exact exact_coverage. Qed.
 Print Assumptions C15_unsized_exact.
+
+(* the generated main impl (GenMain.v, compared with the macro's main impls on every generated
+   invocation): its dispatch-key predicates relax `Sized` only on types of the family's unsized
+   set, and the duplicate-?Sized pass only removes bounds (never adds or moves one) *)
+Theorem C15_main_impl_relaxes_only_unsized : forall idx fb g kp,
+  key_preds idx fb g = Some kp ->
+  forall l bt bs b, In (Node l (bt :: bs)) kp -> In b bs -> is_maybe b = true ->
+    existsb (term_eqb bt) (ab_unsized g) = true.
+Proof. exact key_preds_relax_only_unsized. Qed.
+Print Assumptions C15_main_impl_relaxes_only_unsized.
+
+Theorem C15_dedup_only_removes : forall preds pr,
+  In pr (dedup_maybe preds) -> exists q, In q preds /\ pred_sub pr q.
+Proof. exact dedup_only_removes. Qed.
+Print Assumptions C15_dedup_only_removes.
 
 (* ===================================================================================== *)
 (* C16 -- trait-argument fidelity                                                          *)
